@@ -91,6 +91,17 @@ Fixpoint pcs_ok (ns : list tnode) (end_pc : Z) : bool :=
       && pcs_ok rest end_pc
   end.
 
+(** [*=] to a RAM address (no file offset to move to) leaves the output offset where it was. *)
+Fixpoint ram_org_ok (high : bool) (ns : list tnode) : bool :=
+  match ns with
+  | [] => true
+  | n :: rest =>
+      match rest with
+      | m :: _ => negb (tn_kind n =? 1) || negb (is_ram high (tn_addr m)) || (tn_pc m =? tn_pc n)
+      | [] => true
+      end && ram_org_ok high rest
+  end.
+
 (** ** What a case asks the oracle to check *)
 Inductive spec :=
 | SNone
@@ -191,7 +202,7 @@ Definition spec_ok (s : spec) (impl : obs asmobs) : bool :=
       match impl with
       | OOk (blocks, _) =>
           list_eqb wblock_eqb (cut_spec ns end_pc [] 0) blocks
-          && (user_map || offsets_ok high ns false) && pcs_ok ns end_pc
+          && (user_map || offsets_ok high ns false) && pcs_ok ns end_pc && (user_map || ram_org_ok high ns)
       | _ => true
       end
   | STwin twin with_labels =>
